@@ -1,6 +1,128 @@
-/- C12 — statements are being added as the proofs land (see DESIGN.md §6). -/
+/-
+  C12 — a unit's hash position is the first 32 bits of the MD5 digest of the UTF-8 encoding
+  of the salt followed by the `str()` of the splitter values, taken in alphabetical order
+  of field name.
+-/
+import Pyab.Generated.Config
+import Pyab.Spec.Run
+import Pyab.Proofs.RunGenerated
+import Pyab.Properties.C09
 namespace Pyab.Properties
+open Pyab Pyab.Spec Pyab.Proofs Pyab.Proofs.Run
 
-theorem C12_placeholder : True := trivial
+deriving instance DecidableEq for Except
+
+/-- the published scheme: numerator (over 2^32) of the hash position of a unit -/
+def published (salt : Option String) (splitters : List String) (env : Env) : Except Err Nat := do
+  let vals ← (sortDedup splitters).mapM (fun n => match env.get n with
+    | some v => PyVal.pyStr v
+    | none => throw .nameError)
+  pure (MD5.pos32 ((salt.getD "") ++ String.join vals))
+
+/-- `deterministic_choice` on a given hash position: the group whose cumulative-weight
+    interval contains the position -/
+def chooseAt (h : Nat) (pop : List PyVal) (ws : List Num) : Except Err Outcome := do
+  match ← Choice.choiceIdx (some h) pop.length (some ws) none with
+  | .idx i => match pop[i]? with
+      | some v => pure (.group v)
+      | none => throw .indexError
+  | .random _ => throw (.other "unreachable")
+
+theorem published_eq_keyOf (salt : Option String) (xs : List String) (env : Env) :
+    published salt xs env = MD5.pos32 <$> keyOf (salt.getD "") (sortDedup xs) env := by
+  unfold published keyOf
+  simp only [map_bind, map_pure]
+  rfl
+
+/-- **The compiled position is the published position.**  With the UTF-8 key encoding, for
+    an experiment with splitters `xs`, whenever routing selects a return statement with
+    population `pop` and weights `ws`, the generated function returns exactly the group that
+    `deterministic_choice` picks at the position `published e.salt xs env`: MD5 of the UTF-8
+    bytes of salt ++ str(values in sorted field-name order), first 32 bits. -/
+theorem C12_compiled_position_eq_published (cfg : RunCfg) (hc : CanonicalExpr cfg.toGenCfg)
+    (hs : cfg.strReprSalt = true) (hu : cfg.keyUtf8 = true)
+    (e : Experiment) (env : Env) (L : List ILine) (hL : bodyLines cfg.toGenCfg 2 e.cond = .ok L)
+    (hp : ∀ n ∈ e.params cfg.toGenCfg, (env.get n).isSome = true)
+    (gs : List Group) (pop : List PyVal) (ws : List Num)
+    (hroute : specRoute env e.cond = .ok (some gs)) (hret : retVals cfg.toGenCfg gs = .ok (pop, ws))
+    (xs : List String) (hxs : e.splitters = some xs) (hne : xs ≠ []) :
+    runGenerated cfg e env = (do
+      let h ← published e.salt xs env
+      chooseAt h pop ws) := by
+  rw [C09_factorisation cfg hc hs e env L hL, specRun_eq]
+  have h1 : (e.params cfg.toGenCfg).all (fun p => (env.get p).isSome) = true := List.all_eq_true.2 hp
+  have hr : routed cfg.toGenCfg env e.cond = .ok (pop, ws) := by
+    unfold routed; rw [hroute]; exact hret
+  have hlv : e.localVars = sortDedup xs := by unfold Experiment.localVars; rw [hxs]
+  simp only [h1, hr, Bool.not_true, Bool.false_eq_true, if_false, bind, Except.bind]
+  unfold choiceStage
+  rw [published_eq_keyOf, hlv]
+  cases hsd : sortDedup xs with
+  | nil => exact absurd hsd (sortDedup_ne_nil hne)
+  | cons y ys =>
+      simp only []
+      cases keyOf (e.salt.getD "") (y :: ys) env with
+      | error err => rfl
+      | ok key =>
+          simp only [bind, Except.bind, Functor.map, Except.map, chooseByKey, chooseAt, hu,
+            Bool.not_true, Bool.false_and, Bool.false_eq_true, if_false, pure, Except.pure]
+          cases Choice.choiceIdx (some (MD5.pos32 key)) pop.length (some ws) none with
+          | error err => rfl
+          | ok pk =>
+              cases pk with
+              | random c => rfl
+              | idx i =>
+                  simp only []
+                  cases pop[i]? <;> rfl
+
+/-- the example experiment of C09 on the unit `uid = "u1"`, `country = 1` -/
+example : runGenerated Generated.runCfg exC09 [("uid", .str "u1"), ("country", .int 1)] = (do
+      let h ← published (some "s") ["uid"] [("uid", .str "u1"), ("country", .int 1)]
+      chooseAt h [.int 10, .int 20] [.i 1, .i 1]) :=
+  C12_compiled_position_eq_published Generated.runCfg C02_generator_canonical rfl rfl exC09 _ _ rfl
+    (by decide) _ _ _ rfl rfl ["uid"] rfl (by decide)
+
+/-- the position is a 32-bit number: the hash position `h / 2^32` lies in `[0, 1)` -/
+theorem C12_position_lt (s : String) : MD5.pos32 s < 2 ^ 32 := MD5.pos32_lt s
+
+/-- … and so does every published position -/
+theorem C12_published_lt (salt : Option String) (xs : List String) (env : Env) (h : Nat)
+    (hp : published salt xs env = .ok h) : h < 2 ^ 32 := by
+  rw [published_eq_keyOf] at hp
+  cases hk : keyOf (salt.getD "") (sortDedup xs) env with
+  | error err => rw [hk] at hp; cases hp
+  | ok key =>
+      rw [hk] at hp
+      cases hp
+      exact MD5.pos32_lt key
+
+example : (442407719 : Nat) < 2 ^ 32 :=
+  C12_published_lt (some "jos") ["x"] [("x", .str "é")] _ (by decide +kernel)
+
+/-- the order of the splitter declaration is irrelevant; only the field names' alphabetical
+    order matters -/
+example : published (some "s") ["b", "a"] [("a", .str "1"), ("b", .str "2")]
+    = published (some "s") ["a", "b"] [("b", .str "2"), ("a", .str "1")] := by decide +kernel
+
+/-! ### known answers: RFC 1321 test suite, and a non-ASCII key -/
+
+example : MD5.hexdigest "".toUTF8.toList = "d41d8cd98f00b204e9800998ecf8427e" := by decide +kernel
+example : MD5.hexdigest "a".toUTF8.toList = "0cc175b9c0f1b6a831c399e269772661" := by decide +kernel
+example : MD5.hexdigest "abc".toUTF8.toList = "900150983cd24fb0d6963f7d28e17f72" := by decide +kernel
+example : MD5.hexdigest "message digest".toUTF8.toList = "f96b697d7cb7938d525a2f31aaf161d0" := by
+  decide +kernel
+example : MD5.hexdigest "abcdefghijklmnopqrstuvwxyz".toUTF8.toList = "c3fcd3d76192e4007dfb496cca67e13b" := by
+  decide +kernel
+/-- two blocks -/
+example : MD5.hexdigest
+    "ABCDEFGHIJKLMNOPQRSTUVWXYZabcdefghijklmnopqrstuvwxyz0123456789".toUTF8.toList
+    = "d174ab98d277d9f5a5611c2c9f419d9f" := by decide +kernel
+/-- `int(hashlib.md5("josé".encode("utf-8")).hexdigest()[:8], 16)` -/
+example : MD5.pos32 "josé" = 442407719 := by decide +kernel
+example : published (some "jos") ["x"] [("x", .str "é")] = .ok 442407719 := by decide +kernel
+
+
+/-- **table obligation**: the key is hashed as UTF-8 and the salt is rendered with `repr()` -/
+theorem C12_key_is_utf8 : (Generated.runCfg.keyUtf8 && Generated.runCfg.strReprSalt) = true := by decide
 
 end Pyab.Properties
